@@ -38,6 +38,8 @@ func (a atom) String() string {
 		return "F(" + shortCanon(a.Base) + "." + a.Field.Name() + ")"
 	case 'P':
 		return "P(" + a.Name + ")"
+	case 'M':
+		return "M(" + a.Field.Name() + "[" + shortCanon(a.Name) + "])"
 	}
 	if a.Field != nil {
 		return "E(" + shortCanon(a.Base) + "." + a.Field.Name() + ")"
@@ -88,11 +90,23 @@ func (p *pathCtx) has(b *ssa.BasicBlock) bool { _, ok := p.pred[b]; return ok ||
 // instruction) — or, when target is nil, that reach a normal return — with
 // consistent branch decisions (same canonical condition, same truth).
 func enumPaths(f *ssa.Function, target ssa.Instruction, limit int) ([]*pathCtx, bool) {
-	var out []*pathCtx
-	complete := true
 	if len(f.Blocks) == 0 {
 		return nil, true
 	}
+	return enumPathsFrom(f, f.Blocks[0], target, limit)
+}
+
+// enumPathsFrom is enumPaths starting at an arbitrary block (e.g. the first
+// block of a loop body, to enumerate the paths of one iteration).
+func enumPathsFrom(f *ssa.Function, start *ssa.BasicBlock, target ssa.Instruction, limit int) ([]*pathCtx, bool) {
+	return enumPathsGen(f, start, target, nil, limit)
+}
+
+// enumPathsGen: paths end at instruction target, or (when endBlock != nil) on
+// arrival at endBlock (e.g. a loop header, to enumerate one iteration).
+func enumPathsGen(f *ssa.Function, start *ssa.BasicBlock, target ssa.Instruction, endBlock *ssa.BasicBlock, limit int) ([]*pathCtx, bool) {
+	var out []*pathCtx
+	complete := true
 	var walk func(b *ssa.BasicBlock, blocks []*ssa.BasicBlock, pred map[*ssa.BasicBlock]*ssa.BasicBlock, conds map[string]bool, decs []decision)
 	walk = func(b *ssa.BasicBlock, blocks []*ssa.BasicBlock, pred map[*ssa.BasicBlock]*ssa.BasicBlock, conds map[string]bool, decs []decision) {
 		if len(out) >= limit {
@@ -106,11 +120,15 @@ func enumPaths(f *ssa.Function, target ssa.Instruction, limit int) ([]*pathCtx, 
 				done = true
 				break
 			}
+			if endBlock != nil && b == endBlock && len(blocks) > 1 {
+				done = true
+				break
+			}
 			if panicsAt(in) {
 				return
 			}
 			if _, ok := in.(*ssa.Return); ok {
-				if target == nil {
+				if target == nil && endBlock == nil {
 					done = true
 				} else {
 					return
@@ -160,7 +178,7 @@ func enumPaths(f *ssa.Function, target ssa.Instruction, limit int) ([]*pathCtx, 
 			walk(s, blocks, np, nc, nd)
 		}
 	}
-	walk(f.Blocks[0], nil, map[*ssa.BasicBlock]*ssa.BasicBlock{}, map[string]bool{}, nil)
+	walk(start, nil, map[*ssa.BasicBlock]*ssa.BasicBlock{}, map[string]bool{}, nil)
 	return out, complete
 }
 
@@ -250,6 +268,18 @@ func (e *seqEngine) eval(v ssa.Value, p *pathCtx) seqVal {
 		fv := fieldVar(x.X.Type(), x.Field)
 		at := atom{Kind: 'F', Field: fv, Base: canon(x.X), Val: x}
 		return seqVal{Atoms: []atom{at}, AliasOf: at.String()}
+	case *ssa.Lookup:
+		if fv := unwrapAddr(x.X).lastField(); fv != nil && !x.CommaOk {
+			at := atom{Kind: 'M', Field: fv, Base: canon(x.X), Name: canon(x.Index), Val: x}
+			return seqVal{Atoms: []atom{at}, AliasOf: at.String()}
+		}
+	case *ssa.Extract:
+		if lk, ok := x.Tuple.(*ssa.Lookup); ok && lk.CommaOk && x.Index == 0 {
+			if fv := unwrapAddr(lk.X).lastField(); fv != nil {
+				at := atom{Kind: 'M', Field: fv, Base: canon(lk.X), Name: canon(lk.Index), Val: x}
+				return seqVal{Atoms: []atom{at}, AliasOf: at.String()}
+			}
+		}
 	case *ssa.MakeSlice:
 		return e.evalMake(x, p)
 	case *ssa.Slice:
